@@ -72,7 +72,7 @@ def run(ctx):
     gen = dict(spec="GenSpec", log="LogAppend", depth=60, rpes="3", mins="1, 2", starts="1", maxround=7, maxskip=4,
                maxepoch=2, force="MCForceFew", rest="VIEW cvars\nACTION_CONSTRAINT EmitEdge")
     if not q:
-        gen.update(rpes="3, 4", mins="1, 2, 3", maxround=8, maxskip=5, maxepoch=3, k=12)
+        gen.update(rpes="3, 4", mins="1, 2, 3", maxround=8, maxskip=5, maxepoch=3, k=40)
 
     def cover(mode, tag):
         beh = ctx.path("edges-%s.ndjson" % tag)
@@ -123,7 +123,7 @@ def run(ctx):
 
     # R3: seeded random histories at realistic sizes on the real trigger, validated by TLC.
     #  (a) ForceEpochStart never asked for a round below the current epoch start  (b) any requested round
-    nt, ln = (40, 120) if q else (300, 250)
+    nt, ln = (40, 120) if q else (200, 200)
     for mode in ("nopast", "any"):
         tr = os.path.join(sd, "trace.ndjson")
         r3 = ctx.vh(exe, ["record", ctx.seed, nt, ln, tr, mode])
@@ -165,7 +165,7 @@ def run(ctx):
             import json
             if early([json.loads(x) for x in open(tr).read().splitlines() if x.strip()]) and found:
                 vlib.selftest_rejects(ctx, sd, "Trace_EpochTrigger", "Trace_EpochTrigger_obs.cfg", tr, early)
-    ctx.cov(rule="R2: every transition (quick) / a 1-in-12 sample of the transitions (thorough) of the trigger "
+    ctx.cov(rule="R2: every transition (quick) / a 1-in-40 sample of the transitions of a larger graph (thorough) of the trigger "
                  "specification's abstract state graph (rounds <= 7..8, forced rounds in the past/future/MaxUint64, "
                  "nonces 3/4, SetProcessed, RevertStateToBlock) replayed on the real trigger comparing Epoch(), "
                  "IsEpochStart(), EpochStartRound() after every step; distinct = distinct (source state, call, arguments, "
